@@ -257,6 +257,14 @@ def check_regex_resolution_per_evaluation(repo: Repo, res: Result) -> None:
         elif isinstance(recv, ast.Attribute) or (isinstance(recv, ast.Name) and cases and any(isinstance(single_value(va, v), ast.Attribute) for _s, v in cases)):
             fresh = False
             why_a = f"Rule.assert_applies evaluates with the stored matcher `{norm(recv, 40)}`"
+    # (a') for a *layer* rule the "matcher class" the wrapped Rule calls is the factory LayerRule hands over: a factory that
+    #      keeps the matcher it built serves the same matcher to every later assert_applies
+    from .c05_lowering import layer_matcher_factory
+
+    kept = layer_matcher_factory(repo).get("kept")
+    if kept and fresh is not False:
+        fresh = False
+        why_a = f"the matcher factory LayerRule hands to the wrapped Rule keeps the matcher it built (`{kept}`), so every assert_applies of a layer rule evaluates with the same matcher"
     # (b) does every match() resolve the regexes against its evaluable?
     vm = dview(repo, match, lm, family(repo, lm), tag="lm")
     ev = match.param_names[1] if len(match.param_names) > 1 else None
@@ -291,7 +299,8 @@ def check_regex_resolution_per_evaluation(repo: Repo, res: Result) -> None:
         g = guard_formula(vm, c)
         state_atoms = sorted(a for a in atoms_of(g) if any(w in a for w in written) or "getattr(self" in a or "hasattr(self" in a)
         if state_atoms and not implies(TRUE, g):
-            stateful.append((c, state_atoms))
+            short = [a for a in state_atoms if len(a) < 90]
+            stateful.append((c, short or [a[:87] + "..." for a in state_atoms[:1]]))
         if c in convs and ev is not None and not any(isinstance(x, ast.Name) and x.id == ev for a in [*c.args, *[k.value for k in c.keywords]] for x in ast.walk(a)):
             stateful.append((c, [f"the evaluable `{ev}` is not an argument"]))
     if not stateful:
@@ -299,7 +308,7 @@ def check_regex_resolution_per_evaluation(repo: Repo, res: Result) -> None:
         return
     c, atoms_ = stateful[0]
     if fresh:
-        res.add("C05.R7", construct, True, "the regex conversion depends on matcher state, but Rule.assert_applies builds a fresh matcher for every evaluation", where_of(vm, c), kind="dominance")
+        res.add("C05.R7", construct, True, "the per-evaluation resolution depends on matcher state, but a fresh matcher is built for every evaluation", where_of(vm, c), kind="dominance")
         res.observe(f"C05.R7 `{norm(c, 60)}` is skipped depending on {atoms_} (harmless while every evaluation builds a new matcher)")
     elif fresh is False:
         what = "regex conversion" if c in convs else "layer mapping"
@@ -408,9 +417,70 @@ def check_conversion_map_complete(repo: Repo, res: Result) -> None:
                     if vt in al:
                         al.add(norm(n.targets[0]))
 
+    def used_params(callee: FuncInfo) -> set[str] | None:
+        """Parameters of a helper (not inlined) that contribute to what it returns; None when that cannot be followed."""
+        key_ = ("c05-used-params", callee.fq)
+        cache_ = repo.__dict__.setdefault("_c05_cache", {})
+        if key_ in cache_:
+            return cache_[key_]
+        cache_[key_] = None
+        cv = dview(repo, callee, lm if callee.cls is not None else None, fam, tag="lm")
+        params = [p_ for p_ in callee.param_names if p_ not in ("self", "cls")]
+        rets = [x for x in all_nodes(cv) if isinstance(x, ast.Return) and x.value is not None]
+        if not rets:
+            return None
+        used: set[str] = set()
+
+        def walk_(e_: ast.AST, d_: int, seen_: frozenset) -> None:
+            for x in ast.walk(e_):
+                if isinstance(x, ast.Name) and isinstance(x.ctx, ast.Load):
+                    if x.id in params:
+                        used.add(x.id)
+                    elif d_ < 4 and x.id not in seen_:
+                        for p_ in productions(cv, x):
+                            for part in (p_.elt, p_.key, p_.merged, *[it for _t, it in p_.loops]):
+                                if part is not None and part is not x:
+                                    walk_(part, d_ + 1, seen_ | {x.id})
+
+        for r in rets:
+            walk_(r.value, 0, frozenset())
+        cache_[key_] = used
+        return used
+
+    def helper_of(call: ast.Call) -> FuncInfo | None:
+        src = getattr(call, "_src", None)
+        ctx, orig = src if src is not None else (vm, call)
+        try:
+            cs, how = T.callees(ctx, orig, byname_fallback=False)
+        except Exception:  # noqa: BLE001
+            return None
+        cs = [c_ for c_ in cs if not c_.is_abstract and not isinstance(c_.node, ast.Lambda)]
+        return cs[0] if len(cs) == 1 and how == "repo" and c_is_helper(cs[0]) else None
+
+    def c_is_helper(f_: FuncInfo) -> bool:
+        return f_.module.name.startswith("pytestarch.rule_assessment") or f_.module.name.startswith("pytestarch.utils")
+
     def mentioned(e: ast.AST, depth: int = 0, seen: frozenset = frozenset()) -> set[str]:
         out: set[str] = set()
+        skip: set[int] = set()
         for x in ast.walk(e):
+            if id(x) in skip:
+                continue
+            if isinstance(x, ast.Call) and depth < 4:
+                # a helper that was not inlined: only the arguments of the parameters its result is built from count
+                callee = helper_of(x)
+                up = used_params(callee) if callee is not None else None
+                if callee is not None and up is not None:
+                    from .c05_views import _bind_call
+
+                    binding = _bind_call(callee, x) or {}
+                    for y in ast.walk(x):
+                        if y is not x:
+                            skip.add(id(y))
+                    for p_, a in binding.items():
+                        if p_ in up:
+                            out |= mentioned(a, depth + 1, seen)
+                    continue
             if isinstance(x, (ast.Attribute, ast.Name)) and isinstance(getattr(x, "ctx", None), ast.Load):
                 t = norm(x)
                 for m_ in maps:
@@ -431,6 +501,16 @@ def check_conversion_map_complete(repo: Repo, res: Result) -> None:
             from .common import conds as _conds
 
             cases_ = [(_conds(vm, st), v) for st, v in asg]
+    if not cases_ and isinstance(var_expr, ast.Attribute):
+        # a field filled earlier in the same evaluation (`self._map = merge(a, b)` in the conversion step)
+        from .common import conds as _conds
+
+        txt = norm(var_expr)
+        for x in all_nodes(vm):
+            if isinstance(x, (ast.Assign, ast.AnnAssign)) and x.value is not None:
+                tgs = x.targets if isinstance(x, ast.Assign) else [x.target]
+                if any(isinstance(tg, ast.Attribute) and norm(tg) == txt for tg in tgs):
+                    cases_.append((_conds(vm, x), x.value))
     if not cases_:
         cases_ = value_cases(vm, var_expr)
     for cs_, expr in cases_:
